@@ -46,7 +46,8 @@ def plain_args(db, d, t):
     npair = d * (d - 1) // 2
     out = []
     for k in range(npair):
-        s = buf.cell(npair + k).value
+        from guarded import generic_leaf
+        s = generic_leaf(buf.cell(npair + k).value)  # special-cased arguments (t == 0, ...) are C03's concern
         fa = c03.func_arg(s, 'sin') if isinstance(s, Poly) else None
         out.append(fa[1] * fa[0] if fa else None)
     return out
